@@ -861,3 +861,62 @@ Proof.
 Qed.
 
 End UnrollErr.
+
+(* ------------------------------------------------------------------ 4'. the sheet as the code reads it (run_sheet) *)
+(* what the probes of this run found in the code (Gen/Tables.v, regenerated): the two repairs are in *)
+Lemma policies_repaired :
+  loop_scope_policy = ScopeRestore /\ empty_loop_policy = EmptySkip /\ remove_tolerant = true.
+Proof. repeat split; vm_compute; reflexivity. Qed.
+
+Lemma run_sheet_repaired pol rows c :
+  run_sheet pol rows c = parse_block pol ScopeRestore EmptySkip true rows (sheet_fuel rows) (mkP 0 c []) BRoot false.
+Proof.
+  unfold run_sheet. destruct policies_repaired as [-> [-> ->]]. reflexivity.
+Qed.
+
+(* the fuel of run_sheet is never the reason of a failure *)
+Theorem run_sheet_fuel_suffices pol rows c : run_sheet pol rows c <> RErr OutOfFuel.
+Proof. unfold run_sheet. apply no_out_of_fuel. apply sheet_fuel_enough. Qed.
+
+Theorem desugar_equiv pol rows c s :
+  run_sheet pol rows c = ROk s ->
+  exists rows' s',
+    desugar pol c rows = ROk rows'
+    /\ forallb row_is_plain_literal rows' = true
+    /\ run_sheet pol rows' [] = ROk s'
+    /\ toks (rev (p_log s')) = toks (rev (p_log s))
+    /\ shape (rev (p_log s')) = shape (rev (p_log s))
+    /\ (exists its, shape (rev (p_log s)) = Some its)
+    /\ p_ctx s = c.
+Proof.
+  rewrite run_sheet_repaired. intros H.
+  destruct (desugar_equiv_fuel pol true loop_scope_policy empty_loop_policy remove_tolerant _ _ _ _ H)
+    as [rows' [s' [Hd [Hlit [Hrun [Ht [Hsh [Hc _]]]]]]]].
+  exists rows', s'. unfold desugar. rewrite Hd. repeat split; try assumption.
+  - unfold run_sheet. apply Hrun. pose proof (sheet_fuel_enough rows'). fold (sheet_fuel rows'). lia.
+  - unfold shape. rewrite Ht. reflexivity.
+Qed.
+
+(* the converse and the failures: the desugaring is defined exactly when the sheet is read
+   successfully, and fails with the parser's error otherwise *)
+Theorem desugar_error_iff pol rows c e :
+  run_sheet pol rows c = RErr e <-> desugar pol c rows = RErr e.
+Proof.
+  rewrite run_sheet_repaired. unfold desugar. split.
+  - intros H. pose proof (unroll_err pol true rows _ _ _ _ _ H (or_introl eq_refl)) as Hd.
+    cbn [p_pos p_ctx skipn] in Hd. rewrite Hd. reflexivity.
+  - intros Hd. destruct (parse_block pol ScopeRestore EmptySkip true rows (sheet_fuel rows) (mkP 0 c []) BRoot false) as [s|e'] eqn:H.
+    + destruct (unroll_ok pol true rows _ _ _ _ _ H) as [out [evs [Hd' _]]]. cbn [p_pos p_ctx skipn] in Hd'.
+      rewrite Hd' in Hd. discriminate.
+    + pose proof (unroll_err pol true rows _ _ _ _ _ H (or_introl eq_refl)) as Hd'.
+      cbn [p_pos p_ctx skipn] in Hd'. rewrite Hd' in Hd. inversion Hd; reflexivity.
+Qed.
+
+Corollary desugar_defined_iff pol rows c :
+  (exists s, run_sheet pol rows c = ROk s) <-> (exists rows', desugar pol c rows = ROk rows').
+Proof.
+  split.
+  - intros [s H]. destruct (desugar_equiv _ _ _ _ H) as [rows' [_ [Hd _]]]. exists rows'. exact Hd.
+  - intros [rows' Hd]. destruct (run_sheet pol rows c) as [s|e] eqn:H; [exists s; reflexivity|].
+    apply desugar_error_iff in H. rewrite H in Hd. discriminate.
+Qed.
